@@ -37,6 +37,10 @@ def base_cfg(variant=0):
     if variant == 4:      # cli0 is a DEFAULT peer of the realm but not configured for the application (cli1 is)
         c["peers"][0].update(apps=[], default=True)
         c["peers"][1].update(persistent=False, addr=False)
+    if variant == 10:     # one application that is both an authentication and an accounting application
+        c["apps"] = [dict(id=4, auth=True, acct=True)]
+    if variant == 9:      # the peers are configured with capital letters in their names
+        c["upper_uri"] = True
     if variant == 8:      # the persistent peer's reconnect deadline falls a few seconds after every failure
         c["peers"][1]["rwait"] = 5
     if variant == 6:      # realm names with capital letters, used as configured by everybody
@@ -147,6 +151,8 @@ def act(cx, tok):
             a, c = [0xffffffff], []
         elif kind == "swapped":        # the node's ids advertised under the other kind
             a, c = acct, auth
+        elif kind == "acctonly":       # the node's accounting ids as Acct-Application-Id, nothing as Auth-Application-Id
+            a, c = [], acct
         elif kind == "relayacct":      # nothing in common, relay id only among the accounting ids
             a, c = [999], [0xffffffff]
         return cx.recv(f, dict(kind="cer", host=host, auth=a, acct=c, vsai=kind == "vsai")) is not None
@@ -170,11 +176,20 @@ def act(cx, tok):
         return cx.recv(f, dict(kind=tok, host=cx.host_of(f))) is not None
     if tok == "dwr_osid":        # a watchdog request that carries the PEER's Origin-State-Id
         return cx.recv(f, dict(kind="dwr", host=cx.host_of(f), osid=1234567)) is not None
+    if tok == "dwa_err":         # the peer answers the watchdog with a failure result: still an answer
+        return cx.recv(f, dict(kind="dwa", host=cx.host_of(f), result=3004)) is not None
+    if tok == "dpr_same_e2e":    # a DPR (no T flag) whose end-to-end id equals that of an answered request
+        if not cx.answered:
+            return False
+        from diameter.message import Message
+        return cx.recv(f, dict(kind="dpr", host=cx.host_of(f), hbh=cx.ids()[0],
+                               e2e=Message.from_bytes(cx.answered[-1]).header.end_to_end_identifier)) is not None
     if tok == "dpa_err":         # the peer answers the DPR with a failure result
         return cx.recv(f, dict(kind="dpa", host=cx.host_of(f), result=5012)) is not None
     if tok == "dwr0":
         return cx.recv(f, dict(kind="dwr", host=cx.host_of(f), hbh=0, e2e=cx.ids()[1])) is not None
-    if tok in ("req", "req0", "req_bad", "req_app", "req_realm", "req_unk", "req_raise", "req_unk_app", "req_unk2", "req_unk2t", "req_app0", "req_t", "req_third"):
+    if tok in ("req", "req0", "req_bad", "req_app", "req_realm", "req_unk", "req_raise", "req_unk_app", "req_unk2", "req_unk2t", "req_unk2s", "req_app0", "req_t", "req_third", "req_realm_app", "req_badrealm",
+               "req_acr", "req_same_e2e"):
         spec = dict(kind="req", host=cx.host_of(f), app=app_ids[0] if app_ids else 4)
         if tok == "req0":
             spec.update(hbh=0, e2e=cx.ids()[1])
@@ -193,6 +208,23 @@ def act(cx, tok):
             spec["app"] = 777
             spec["host2"] = "other.example.net"
             spec["t"] = tok == "req_unk2t"
+        elif tok == "req_unk2s":       # a command without a python class, with TWO Session-Id AVPs
+            spec["code"] = 8388000
+            spec["app"] = 777
+            spec["sessions"] = ["s;1", "s;2"]
+        elif tok == "req_realm_app":   # a realm the node does not serve AND an application nobody registered: the realm decides (3003)
+            spec["drealm"] = "nowhere.example.com"
+            spec["app"] = 777
+        elif tok == "req_badrealm":    # a Destination-Realm that is not text at all
+            spec["drealm_raw"] = b"\xff\xfe\xfd"
+        elif tok == "req_acr":         # an Accounting-Request bearing the application's id
+            spec["code"] = 271
+        elif tok == "req_same_e2e":    # a NEW request (no T flag) that reuses the end-to-end id of an answered one
+            if not cx.answered:
+                return False
+            from diameter.message import Message
+            spec["e2e"] = Message.from_bytes(cx.answered[-1]).header.end_to_end_identifier
+            spec["hbh"] = cx.ids()[0]
         elif tok == "req_app0":        # application id 0 in the header, the application's id in the AVP only
             spec["hdr_app"] = 0
         elif tok == "req_t":           # a first-seen request that bears the T flag
@@ -213,6 +245,20 @@ def act(cx, tok):
                 cx.answered.append(w)
             cx.do(dict(ev="app_answer", app=app, msg=cx.g.make_answer(w)))
         return True
+    if tok in ("req_twin", "retx_bg"):
+        # req_twin: on the BACKGROUND connection (another peer, another origin host) a request with the SAME hop-by-hop and
+        # end-to-end identifiers as the last request of the focus connection -- hop-by-hop identifiers are unique per
+        # connection only;  retx_bg: the T-flagged repeat of that twin
+        from diameter.message import Message
+        bg = cx.conn.get("bg")
+        if bg is None or not cx.alive(bg) or f not in cx.last_req:
+            return False
+        q = Message.from_bytes(cx.last_req[f])
+        spec = dict(kind="req", host=cx.host_of(bg), app=app_ids[0] if app_ids else 4,
+                    hbh=q.header.hop_by_hop_identifier, e2e=q.header.end_to_end_identifier, t=tok == "retx_bg")
+        if tok == "retx_bg":
+            spec["hbh"] = cx.ids()[0]
+        return cx.recv(bg, spec) is not None
     if tok == "req_other":       # Destination-Realm of the other configured realm
         return cx.recv(f, dict(kind="req", host=cx.host_of(f), app=app_ids[0] if app_ids else 4, drealm="other.example.org")) is not None
     if tok in ("frag", "frag_rest"):
@@ -384,14 +430,14 @@ def act(cx, tok):
 
 THEMES = {
     # theme: (config variants, setup tokens, alphabet)
-    "handshake_in": ((0, 1, 2, 5), ["accept"],
-                     ["cer_known", "cer_vsai", "cer_unknown", "cer_nocommon", "cer_relay", "cer_relayacct", "cer_swapped", "cea_ok", "dwr", "dpr", "req", "ans",
+    "handshake_in": ((0, 1, 2, 5, 9, 10), ["accept"],
+                     ["cer_known", "cer_vsai", "cer_acctonly", "cer_unknown", "cer_nocommon", "cer_relay", "cer_relayacct", "cer_swapped", "cea_ok", "dwr", "dpr", "req", "ans",
                       "tdwa", "close", "accept_bg", "swap"]),
-    "handshake_out": ((0, 1, 2), [],
+    "handshake_out": ((0, 1, 2, 9), [],
                       ["cea_ok", "cea_upper", "cea_2002", "cea_3010", "cea_nohost", "cea_foreign", "cer_known1", "cer_known", "dwr", "dwa", "dpr", "req",
                        "tdwa", "t1", "close", "appreq"]),
     "ready": ((0, 1, 2), ["accept", "cer_known"],
-              ["dwr", "dwr0", "dwa", "dpr", "dpa", "req", "req0", "req_raise", "req_bad", "req_app", "req_realm", "req_unk", "req_unk2", "req_unk2t", "retx", "ans", "ans_exp",
+              ["dwr", "dwr0", "dwa", "dpr", "dpa", "req", "req0", "req_raise", "req_bad", "req_app", "req_realm", "req_unk", "req_unk2", "req_unk2t", "req_unk2s", "retx", "ans", "ans_exp",
                "ans_again", "t1", "tbig", "tdwa", "stall", "unstall", "stop", "stopf", "close", "appreq", "ansreq", "cea_ok",
                "cer_known", "accept_bg", "swap"]),
 }
@@ -407,10 +453,13 @@ PHASED = {
                        ("any", ["dpa", "dwr", "req", "t1", "tbig", "unstall", "accept_bg", "close", "ans", "bg_cer"], 2)]),
     "disconnect": ((0, 1, 2), ["accept", "cer_known"],
                    [("any", ["tbig", "dpr", "dwa", "dwr", "req", "t1", "close"], 3)]),
+    # a request is answered, then the peer reuses its end-to-end id on a fresh request / on its DPR (no T flag: not a retransmission)
+    "reused_e2e": ((0, 1), ["accept", "cer_known", "req", "ans"],
+                   [("any", ["dpr_same_e2e", "req_same_e2e", "dwr", "ans", "t1", "retx"], 3)]),
     "disconnect_deep": ((0, 1, 2), ["accept", "cer_known"],
                         [("any", ["tbig", "dpr", "dwa", "dwr", "req", "ans", "t1", "close", "appreq", "cea_ok"], 4)]),
     "watchdog": ((0, 1), ["accept", "cer_known"],
-                 [("any", ["tbig", "tdwa", "t1", "t3", "dwa", "dwr", "dwr_osid", "req", "dpr", "stall", "unstall", "appreq"], 3)]),
+                 [("any", ["tbig", "tdwa", "t1", "t3", "dwa", "dwa_err", "dwr", "dwr_osid", "req", "dpr", "stall", "unstall", "appreq"], 3)]),
     # the capabilities exchange completes only after a timer pass has already looked at the connection
     "late_cer": ((1, 0), ["accept", "t1", "cer_known"],
                  [("any", ["tbig", "tdwa", "t1", "t3", "dwa", "dwr"], 3)]),
@@ -422,9 +471,9 @@ PHASED = {
     "partial_reads": ((0, 2), ["accept", "cer_known"],
                       [("any", ["req_plus_part", "frag", "frag_rest", "req", "ans", "dwr", "t1"], 3)]),
     "answers": ((0, 2), ["accept", "cer_known"],
-                [("any", ["req", "req0", "req_t", "req_app0", "req_raise", "req_unk_app", "req_unk2", "req_unk2t", "ans", "ans_exp", "ans_err", "stray_t", "ans_again", "close", "dpr", "accept_bg", "swap", "cer_known", "retx"], 3)]),
+                [("any", ["req", "req0", "req_t", "req_app0", "req_raise", "req_unk_app", "req_unk2", "req_unk2t", "req_unk2s", "ans", "ans_exp", "ans_err", "stray_t", "ans_again", "close", "dpr", "accept_bg", "swap", "cer_known", "retx"], 3)]),
     "retransmit": ((0, 2), ["accept", "cer_known"],
-                   [("any", ["req", "ans", "ans_exp", "retx", "retx_pending", "retx_old", "req_unk", "req_realm", "req_app", "t1"], 4)]),
+                   [("any", ["req", "ans", "ans_exp", "req_same_e2e", "retx", "retx_pending", "retx_old", "req_unk", "req_realm", "req_app", "t1"], 4)]),
     # a request of origin A answered, then up to 3 answered requests of A / B (window size 2: eviction), then the T-flagged repeat
     "retransmit_two_origins": ((0,), ["accept", "cer_known"],
                                [("fixed", ["ra"]), ("any", ["ra", "rb", "t1"], 3), ("fixed", ["retx"]), ("any", ["retx", "rb"], 1)]),
@@ -432,7 +481,7 @@ PHASED = {
                   [("any", ["tbig", "tdwa", "t1", "dwa", "close", "swap", "dpr", "req", "ans", "appreq", "appreq1", "ansreq", "stall",
                             "unstall"], 3)]),
     "realms": ((3, 6), ["accept", "cer_known", "accept_bg", "bg_cer"],
-               [("any", ["req", "req_other", "req_third", "swap", "ans", "appreq", "req_app", "req_app0", "close", "dpr", "tbig"], 3)]),
+               [("any", ["req", "req_other", "req_third", "req_realm_app", "req_badrealm", "req_acr", "swap", "ans", "appreq", "req_app", "req_app0", "close", "dpr", "tbig"], 3)]),
     # the node itself keeps sending (requests, late answers) while the peer says nothing: only what is RECEIVED counts
     # as activity for the watchdog
     "busy_sender": ((0, 1), ["accept", "cer_known", "req"],
@@ -447,6 +496,14 @@ PHASED = {
     # end-to-end id): none of them may draw an answer
     "answers_only": ((0, 2), ["accept", "cer_known"],
                      [("fixed", ["req", "ans"]), ("any", ["stray_t", "stray_dwa_t", "stray", "dwa", "dpa"], 3)]),
+    # two peers whose requests bear the SAME hop-by-hop and end-to-end identifiers (unique per connection only), pending at
+    # the same time, answered in either order, then repeated with the T flag
+    "twin_ids": ((0, 2), ["accept", "cer_known", "accept_bg", "bg_cer"],
+                 [("fixed", ["req", "req_twin"]), ("any", ["ans", "retx", "retx_bg", "swap", "req", "close"], 4)]),
+    # the dialled peer answers with a CEA that names ANOTHER configured peer; then that other peer really connects, sends a
+    # request, and the application answers it
+    "foreign_cea": ((0, 2), [],
+                    [("fixed", ["cea_foreign", "accept_bg", "swap", "cer_known", "req"]), ("any", ["ans", "swap", "close", "t1", "req"], 3)]),
     "fragments": ((0, 1), ["accept", "cer_known"],
                   [("any", ["frag", "frag_rest", "t1", "tdwa", "tbig", "dwr"], 4)]),
 }
@@ -497,7 +554,7 @@ def run_sequence(theme, variant, seq):
     cfg = base_cfg(variant)
     cx = Ctx(cfg)
     try:
-        if theme == "handshake_out":
+        if theme in ("handshake_out", "foreign_cea"):
             cx.do(dict(ev="start", dials=[(4242, "DialOk")]))
             cx.focus = 0
         else:
